@@ -57,6 +57,7 @@ statechart:
   preamble: |
     n = 0
     last = None
+    basket = None
   root state:
     name: top
     parallel states:
@@ -80,6 +81,11 @@ statechart:
         action: |
           n = n + event.amount
           last = event.amount
+      - event: reset
+        action: basket = event.items
+      - event: add
+        action: basket.append(1)
+        guard: basket is not None
       states:
       - name: r1
         transitions:
@@ -96,7 +102,8 @@ ACTIONS = {
            'I do nothing', 'I repeat "I send event go" 2 times', 'I send event go with v=7'],
     'k2': ['I send event go', 'I send event set with amount=2', 'I send event set with amount=5',
            'I wait 2 seconds', 'I do nothing', 'I repeat "I send event go" 2 times',
-           'I send event set\n      | parameter | value |\n      | amount    | 3     |\n      | extra     | None  |'],
+           'I send event set\n      | parameter | value |\n      | amount    | 3     |\n      | extra     | None  |',
+           'I send event reset with items=[]', 'I send event add'],
 }
 # library scenarios that 'I reproduce "<name>"' replays (their own then-less run is part of the feature)
 LIBRARY = {
@@ -116,7 +123,8 @@ THENS = {
            'event_params': [('ping', 'level', '1'), ('ping', 'level', '2'), ('ping', 'level', '3')],
            'event_tables': [('ping', (('level', '2'),)), ('ping', (('level', '2'), ('zz', '3'))),
                             ('ping', (('level', '1'), ('level', '2')))],
-           'variables': [('n', '0'), ('n', '2'), ('n', '7'), ('last', '5'), ('last', 'None')],
+           'variables': [('n', '0'), ('n', '2'), ('n', '7'), ('last', '5'), ('last', 'None'), ('basket', '[]'),
+                         ('basket', '[1]')],
            'expressions': ['n == 2', 'n > 2', 'last is None', "active('r2')"]},
 }
 _SC = {}
